@@ -5,6 +5,8 @@ from ..probe import call
 from ..ref import bits
 
 LEVEL = "exploration"
+TECHNIQUE = 'runtime monitoring: forward six-bit encoder as oracle, exhaustive (code x position), pairwise independence relation'
+LEVEL_TEXT = 'Exhaustive over 37 codes x 8 positions for both carriers; 37^8 strings sampled.'
 LEVEL_RULE = (
     "adsb.callsign / adsb.category on TC1-4 identification messages (DF17/18) and commb.cs20 / is20 on BDS 2,0 registers "
     "in DF20/21, built forward from 8-character strings over A-Z 0-9 space: every legal code (37) at every position (8) with "
